@@ -66,11 +66,11 @@ class Spec:
                 "sensor_noise_second_entry_other_key_type": list(self.noise_dups), "reading_keys": "Symbol" if self.reading_syms else "str"}
 
     # ---- real objects
-    def ui_model(self, container):
+    def ui_model(self, container, **flags):
         from formak import ui
         conv = set if container == "set" else list
         return ui.Model(dt=self.dt, state=conv(Symbol(s) for s in self.state), control=conv(Symbol(s) for s in self.control),
-                        state_model={Symbol(k): v for k, v in self.update.items()}, calibration=conv(Symbol(s) for s in self.calibration))
+                        state_model={Symbol(k): v for k, v in self.update.items()}, calibration=conv(Symbol(s) for s in self.calibration), **flags)
 
     def rk(self, r):
         return Symbol(r) if self.reading_syms else r
@@ -85,7 +85,8 @@ class Spec:
                 noise[Symbol(name) if kind == "sym" else name] = v
         sn = {k: {self.rk(r): v for r, v in rd.items()} for k, rd in self.sensor_noise.items()}
         for k, r, v in self.noise_dups:
-            sn[k][r if self.reading_syms else Symbol(r)] = v
+            if k in sn:      # (a second fault may have removed the whole sensor's noise map)
+                sn[k][r if self.reading_syms else Symbol(r)] = v
         return dict(process_noise=noise,
                     sensor_models={k: {self.rk(r): e for r, e in rd.items()} for k, rd in self.sensors.items()},
                     sensor_noises=sn,
@@ -208,16 +209,24 @@ def run_entry_points(ctx, spec, which, tag, shared=None):
     from formak import cpp, python
     res = {}
     container = ctx.rng.choice(["set", "list"])
+    # the optional model switches do not change what is accepted
+    flags = {"proactive_simplify": True} if (which == "ui" or shared is None) and ctx.rng.random() < 0.5 else {}
+    res_flags = "proactive_simplify" if flags else "default"
+    ctx.count(f"ui_flags={res_flags}")
     holder = {}
 
     def mk():
         if shared is not None and which in ("compile", "ekf") and "m" in shared:
             holder["m"] = shared["m"]
         else:
-            holder["m"] = spec.ui_model(container)
+            holder["m"] = spec.ui_model(container, **flags)
             if shared is not None and which == "all":
                 shared["m"] = holder["m"]
     res["ui"] = attempt(mk)
+    if which == "ui":
+        # the same definition with the other setting of the optional model switch
+        other = {} if flags else {"proactive_simplify": True}
+        res["ui[proactive_simplify]" if other else "ui[default]"] = attempt(lambda: spec.ui_model(container, **other))
     if res["ui"] != "accepted" or which == "ui":
         return res
     m = holder["m"]
@@ -301,10 +310,11 @@ def run(ctx):
             ctx.broke("driver:accept", a, case); continue
         m = a["ok"]
         for ep, outcome in res.items():
+            epk = "ui" if ep.startswith("ui[") else ep
             valid = {"ui": m["valid_ui"], "py.compile": m["valid_cal"], "cpp.compile": m["valid_cal"],
-                     "py.compile_ekf": m["valid_ekf"], "cpp.compile_ekf": m["valid_ekf"]}[ep]
+                     "py.compile_ekf": m["valid_ekf"], "cpp.compile_ekf": m["valid_ekf"]}[epk]
             model_acc = {"ui": m["ui"], "py.compile": m["compile"], "cpp.compile": m["compile"],
-                         "py.compile_ekf": m["ekf"], "cpp.compile_ekf": m["ekf"]}[ep]
+                         "py.compile_ekf": m["ekf"], "cpp.compile_ekf": m["ekf"]}[epk]
             c = dict(case, entry_point=ep, outcome=outcome)
             ctx.case(c, nontrivial=(kind != "valid") or len(case["def"]["sensors"]) >= 2)
             ctx.count(f"fault={kind.split('+')[0] if '+' not in kind else 'pair'}"); ctx.count(f"entry={ep}"); ctx.count("outcome=" + outcome.split(":")[0])
